@@ -1,3 +1,43 @@
+//! C19 (pixel word layout, byte views, PNG export, buffer round trips) and the colour
+//! conversions of C18.
+use crate::util::*;
+use raqote::*;
 use serde_json::{json, Value};
-pub fn run(sc: &Value) -> Value { json!({"id": sc["id"], "outcome": "unimplemented"}) }
-pub fn drive(_seed: u64, _n: usize) -> Vec<Value> { Vec::new() }
+
+fn split(w: u32) -> Value {
+    px(w)
+}
+
+pub fn run(sc: &Value) -> Value {
+    match sc["kind"].as_str().unwrap_or("views") {
+        "convert" => run_convert(sc),
+        _ => run_views(sc),
+    }
+}
+
+/// from_unpremultiplied_argb(a, c, c2, c3) and From<Color> for one alpha and every c.
+fn run_convert(sc: &Value) -> Value {
+    let a = int(&sc["a"]) as u8;
+    let mut out = Vec::new();
+    for c in 0..=255u32 {
+        let c2 = ((c * 7 + 3) % 256) as u8;
+        let c3 = (255 - c) as u8;
+        let s = SolidSource::from_unpremultiplied_argb(a, c as u8, c2, c3);
+        let t: SolidSource = Color::new(a, c as u8, c2, c3).into();
+        let src: Source = Color::new(a, c as u8, c2, c3).into();
+        let u = match src {
+            Source::Solid(x) => x,
+            _ => unreachable!(),
+        };
+        out.push(json!([[c, c2, c3], [s.a, s.r, s.g, s.b], [t.a, t.r, t.g, t.b], [u.a, u.r, u.g, u.b], split(s.to_u32())]));
+    }
+    json!({"id": sc["id"], "fam": "views", "kind": "convert", "a": a, "rows": out, "outcome": "ok"})
+}
+
+fn run_views(sc: &Value) -> Value {
+    json!({"id": sc["id"], "fam": "views", "kind": "views", "outcome": "unimplemented"})
+}
+
+pub fn drive(_seed: u64, _n: usize) -> Vec<Value> {
+    (0..256).map(|a| json!({"id": format!("conv-{}", a), "fam": "views", "kind": "convert", "a": a})).collect()
+}
